@@ -1,6 +1,7 @@
 package harness
 
 import (
+	"net"
 	"bytes"
 	"context"
 	"encoding/xml"
@@ -644,11 +645,29 @@ func c12Concurrent(rc *RC) {
 		done, peerDone   bool
 		err              error
 		hdr              []byte
+		featNS           string
 	}
 	ctx, cancel := context.WithTimeout(context.Background(), time.Minute)
 	rc.OnCleanup(cancel)
 	var all []*cs
 	langs := []string{"", "en", "de-CH", "x-verif"}
+	// in half of the runs all sessions go through ONE negotiator value, as a server's sessions do, whose configuration
+	// function looks the session's features up by its connection: every receiving session has a feature of its own
+	shared := ch.Chance("workload", 1, 2)
+	byConn := map[net.Conn]*cs{}
+	sharedNeg := xmpp.NewNegotiator(func(s *xmpp.Session, _ *xmpp.StreamConfig) xmpp.StreamConfig {
+		if s == nil {
+			return xmpp.StreamConfig{}
+		}
+		c := byConn[s.Conn()]
+		if c == nil {
+			return xmpp.StreamConfig{}
+		}
+		if c.recv {
+			return xmpp.StreamConfig{Lang: c.lang, Features: []xmpp.StreamFeature{finFeatureNS(c.featNS, nil)}}
+		}
+		return xmpp.StreamConfig{Lang: c.lang}
+	})
 	for i := 0; i < n; i++ {
 		c := &cs{origin: genJID(rc, "workload", true), lang: langs[ch.Int("workload", len(langs))], recv: ch.Chance("workload", 1, 3)}
 		c.location = c.origin.Domain()
@@ -657,12 +676,19 @@ func c12Concurrent(rc *RC) {
 		sut, peer := c.sut, c.peer
 		rc.OnCleanup(func() { sut.Close(); peer.Close() })
 		all = append(all, c)
+		c.featNS = "urn:verif:fin"
 		neg := xmpp.NewNegotiator(func(*xmpp.Session, *xmpp.StreamConfig) xmpp.StreamConfig {
 			if c.recv {
 				return xmpp.StreamConfig{Lang: c.lang, Features: []xmpp.StreamFeature{finFeature(nil)}}
 			}
 			return xmpp.StreamConfig{Lang: c.lang}
 		})
+		if shared {
+			c.featNS = fmt.Sprintf("urn:verif:fin%d", i)
+			byConn[c.sut] = c
+			neg = sharedNeg
+			rc.Fire("shared-negotiator")
+		}
 		rc.Spawn(fmt.Sprintf("sut%d", i), func() {
 			if c.recv {
 				_, c.err = xmpp.ReceiveSession(ctx, c.sut, xmpp.Secure|xmpp.Authn, neg)
@@ -698,7 +724,7 @@ func c12Concurrent(rc *RC) {
 					return
 				}
 				if bytes.Contains(c.sut.Out().Tap, []byte("</stream:features>")) {
-					io.WriteString(c.peer, `<fin xmlns='urn:verif:fin'/>`)
+					fmt.Fprintf(c.peer, `<fin xmlns='%s'/>`, c.featNS)
 				}
 			}
 		})
@@ -734,6 +760,19 @@ func c12Concurrent(rc *RC) {
 		to, _ := attrOf(st, "to")
 		from, _ := attrOf(st, "from")
 		lang, _ := attrOf(st, "lang")
+		if shared {
+			// with a shared negotiator the language of a first header cannot be the session's own (the configuration
+			// function is asked only after the header exchange); what the session advertises must be its own
+			lang = c.lang
+			if c.recv {
+				tap := string(c.sut.Out().Tap)
+				for k, o := range all {
+					if o != c && o.recv && strings.Contains(tap, o.featNS) {
+						rc.Failf("C12.c2", "features-of-another-session", "session %d of %d concurrent receiving sessions that share one negotiator advertised %s, which is configured for session %d only (its own is %s): %s", i, n, o.featNS, k, c.featNS, clip(tap, 300))
+					}
+				}
+			}
+		}
 		if to != wantTo || from != wantFrom || lang != c.lang {
 			rc.Failf("C12.c2", "header-of-another-session", "session %d (recv=%v) of %d concurrent ones: its peer read a header with to=%q from=%q lang=%q, the session's own are to=%q from=%q lang=%q", i, c.recv, n, to, from, lang, wantTo, wantFrom, c.lang)
 		}
